@@ -6,6 +6,7 @@ import (
 	"os"
 	"path/filepath"
 	"sort"
+	"sync/atomic"
 	"time"
 
 	"github.com/lindb/common/pkg/ltoml"
@@ -28,6 +29,10 @@ const directedBase = 100000
 //	the obsolete file cleanup runs. S2 must keep reading exactly what it read first and none of V's tables may be
 //	deleted before S2 is closed.
 func runDirected(k int, dir string, seed int64) {
+	if k%3 == 2 {
+		runDirectedLateRetain(k, dir, seed)
+		return
+	}
 	rnd := rand.New(rand.NewSource(seed*92821 + int64(k)*577 + 11))
 	tables := 2 + rnd.Intn(4)      // tables of V
 	moreFlushes := 1 + rnd.Intn(3) // flushes between S2 and the compaction
@@ -235,6 +240,157 @@ func runDirected(k int, dir string, seed int64) {
 	if replaced {
 		res.Counters["directed.compaction_replaced_the_held_tables"]++
 	}
+	res.Sample = map[string]interface{}{"run": res.Run, "config": res.Config, "counters": mon.counters}
+	writeResult(dir, res)
+}
+
+// runDirectedLateRetain parks a reader inside GetSnapshot, at the point where the family version asks for the table
+// cache (between reading the current version and retaining it), and lets a flush commit run meanwhile. On a tree
+// that reads and retains the version in one step under the family version's lock the commit has to wait for the
+// reader (the harness gives the reader up after a bounded wait - schedule control, not a verdict); on a tree that
+// retains late, the commit completes first, the version the reader is about to retain leaves the active versions and
+// a later compaction deletes tables the reader's snapshot names.
+func runDirectedLateRetain(k int, dir string, seed int64) {
+	rnd := rand.New(rand.NewSource(seed*7151 + int64(k)*313 + 29))
+	tables := 2 + rnd.Intn(3)
+	res := &runResult{Run: directedBase + k, Config: fmt.Sprintf("directed-late-retain{tables:%d}", tables), Counters: map[string]int{}}
+	mon := &monitor{snapFiles: map[int]map[string]bool{}, readerHeld: map[string]int{}, counters: map[string]int{}}
+	storeDir := filepath.Join(dir, "store")
+	mon.famDir = filepath.Join(storeDir, "f")
+	seam.NoFsync = true
+	seam.InstallKV(seam.Direct{}, &seam.Observer{
+		BeforeRemoveDir: func(p string) { mon.beforeRemoveDir(p) },
+		BeforeUnmap:     func(p string) { mon.beforeUnmap(p) },
+	})
+	opt := kv.DefaultStoreOption()
+	opt.Levels = 2
+	opt.TTL = ltoml.Duration(0)
+	opt.Source = timeutil.Interval(10_000)
+	store, err := kv.GetStoreManager().CreateStore(storeDir, opt)
+	if err != nil {
+		fatal(dir, res, "create store: %v", err)
+	}
+	fam, err := store.CreateFamily("f", kv.FamilyOption{Merger: kvtok.MergerName, CompactThreshold: 2})
+	if err != nil {
+		fatal(dir, res, "create family: %v", err)
+	}
+	mon.family = fam
+	var armed atomic.Bool
+	parked := make(chan struct{}, 1)
+	resume := make(chan struct{})
+	{
+		snap0 := fam.GetSnapshot()
+		version.VerifGateGetCache(snap0.GetCurrent().GetFamilyVersion(), func() {
+			if armed.CompareAndSwap(true, false) {
+				parked <- struct{}{}
+				<-resume
+			}
+		})
+		snap0.Close()
+	}
+	keys := []uint32{1, 7, 65535, 65536}
+	tok := uint32(0)
+	flush := func() {
+		tok++
+		fl := fam.NewFlusher()
+		err := fl.Add(keys[int(tok)%len(keys)], kvtok.Encode([]uint32{tok}, int(tok%3)*16))
+		if err == nil {
+			err = fl.Commit()
+		}
+		fl.Release()
+		if err != nil {
+			mon.violate("C02/flush-fails", "flush of token %d failed: %v", tok, err)
+		}
+	}
+	readAll := func(snap version.Snapshot) (string, error) {
+		var all []int
+		for _, key := range keys {
+			err := snap.Load(key, func(value []byte) error {
+				ts, err := kvtok.Decode(value)
+				for _, t := range ts {
+					all = append(all, int(t))
+				}
+				return err
+			})
+			if err != nil {
+				return "", fmt.Errorf("Load(%d): %w", key, err)
+			}
+		}
+		sort.Ints(all)
+		return fmt.Sprint(all), nil
+	}
+	for i := 0; i < tables; i++ {
+		flush()
+	}
+	// the reader
+	var snap version.Snapshot
+	got := make(chan struct{})
+	armed.Store(true)
+	go func() {
+		snap = fam.GetSnapshot()
+		close(got)
+	}()
+	select {
+	case <-parked:
+		mon.count("directed.reader_parked_inside_get_snapshot", 1)
+	case <-time.After(20 * time.Second):
+		fatal(dir, res, "the reader never reached the gate inside GetSnapshot")
+	}
+	// a commit while the reader is parked
+	commitDone := make(chan struct{})
+	go func() {
+		flush()
+		close(commitDone)
+	}()
+	select {
+	case <-commitDone:
+		// only possible when GetSnapshot does not hold the family version's lock while it is parked
+		mon.count("directed.commit_completed_while_the_reader_was_between_read_and_retain", 1)
+	case <-time.After(200 * time.Millisecond):
+		mon.count("directed.commit_waited_for_the_reader", 1)
+	}
+	close(resume)
+	<-commitDone
+	<-got
+	files := map[string]bool{}
+	for _, fm := range snap.GetCurrent().GetAllFiles() {
+		files[version.Table(fm.GetFileNumber())] = true
+	}
+	mon.mu.Lock()
+	mon.snapFiles[1] = files
+	mon.mu.Unlock()
+	first, err := readAll(snap)
+	if err != nil {
+		mon.violate("C02/snapshot-read-error", "directed late retain: first read: %v", err)
+	}
+	flush()
+	kv.VerifFamilyCompact(fam)
+	kv.VerifFamilyWait(fam)
+	kv.VerifFamilyDeleteObsoleteFiles(fam)
+	kv.VerifStoreCompact(store)
+	kv.VerifFamilyWait(fam)
+	kv.VerifFamilyDeleteObsoleteFiles(fam)
+	for f := range files {
+		if _, err := os.Stat(filepath.Join(mon.famDir, f)); err != nil {
+			mon.violate("C02/table-of-open-snapshot-missing", "directed late retain: table %s named by the open snapshot is gone: %v", f, err)
+		}
+	}
+	second, err := readAll(snap)
+	if err != nil {
+		mon.violate("C02/snapshot-read-error", "directed late retain: second read (files %v): %v", keysOf(files), err)
+	} else if first != second {
+		mon.violate("C02/snapshot-content-changed", "directed late retain: %s first and %s later", first, second)
+	}
+	mon.mu.Lock()
+	delete(mon.snapFiles, 1)
+	mon.mu.Unlock()
+	snap.Close()
+	_ = kv.GetStoreManager().CloseStore(storeDir)
+	seam.Restore()
+	res.Counters = mon.counters
+	res.Violations = mon.violations
+	res.Porcupine = "n/a"
+	res.Nontrivial = mon.counters["directed.reader_parked_inside_get_snapshot"] > 0 && mon.counters["table_deletes_attempted"] > 0
 	res.Sample = map[string]interface{}{"run": res.Run, "config": res.Config, "counters": mon.counters}
 	writeResult(dir, res)
 }
